@@ -250,6 +250,19 @@ func cmdRun(argv []string) {
 	if err := json.Unmarshal(b, &specs); err != nil {
 		fatalf("spec: %v", err)
 	}
+	more, _ := filepath.Glob(filepath.Join(filepath.Dir(*specFile), "obligations.d", "*.json"))
+	sort.Strings(more)
+	for _, f := range more {
+		var extra []Spec
+		b, err := os.ReadFile(f)
+		if err != nil {
+			fatalf("spec: %v", err)
+		}
+		if err := json.Unmarshal(b, &extra); err != nil {
+			fatalf("spec %s: %v", f, err)
+		}
+		specs = append(specs, extra...)
+	}
 	var sel []Spec
 	for _, s := range specs {
 		if (*prop == "" || s.Property == *prop) && (*only == "" || s.ID == *only) {
@@ -436,6 +449,14 @@ func mergeStats(dst, src *Stats) {
 }
 
 func loadKnown(file string) {
+	more, _ := filepath.Glob(filepath.Join(filepath.Dir(file), "known_findings.d", "*.txt"))
+	for _, f := range more {
+		loadKnown1(f)
+	}
+	loadKnown1(file)
+}
+
+func loadKnown1(file string) {
 	b, err := os.ReadFile(file)
 	if err != nil {
 		return
